@@ -33,7 +33,7 @@ type c14gPod struct {
 }
 
 type c14gOp struct {
-	K       string `json:"k"` // add | del | restart | gc | terminate (the pod object gets a deletion timestamp; its sandbox lives on until DEL)
+	K       string `json:"k"` // add | del | restart | gc | resandbox (DEL + ADD of a new container for the same pod object) | terminate (the pod object gets a deletion timestamp; its sandbox lives on until DEL)
 	Pod     int    `json:"pod"`
 	FailCNI bool   `json:"fail_cni,omitempty"`
 	FailIpt int    `json:"fail_ipt,omitempty"` // the n-th modifying iptables call of this request fails (0: none)
@@ -68,12 +68,12 @@ func genC14G(t *rapid.T) *c14gCase {
 		c.Occupied = []int{rapid.IntRange(0, 3).Draw(t, "gOccupied")}
 	}
 	for i, n := 0, rapid.IntRange(2, 12).Draw(t, "gOps"); i < n; i++ {
-		op := c14gOp{K: rapid.SampledFrom([]string{"add", "add", "add", "del", "del", "restart", "restart", "gc", "terminate"}).Draw(t, "gOp"),
+		op := c14gOp{K: rapid.SampledFrom([]string{"add", "add", "add", "del", "del", "restart", "restart", "gc", "terminate", "resandbox"}).Draw(t, "gOp"),
 			Pod: rapid.IntRange(0, np-1).Draw(t, "gPod")}
-		if op.K == "add" || op.K == "del" {
+		if op.K == "add" || op.K == "del" || op.K == "resandbox" {
 			switch rapid.IntRange(0, 5).Draw(t, "gFault") {
 			case 0:
-				op.FailCNI = op.K == "add"
+				op.FailCNI = op.K != "del"
 			case 1:
 				op.FailIpt = rapid.IntRange(1, 8).Draw(t, "gFailIpt")
 			}
@@ -272,8 +272,22 @@ func checkC14G(c *c14gCase, r *vcore.Rec) *vcore.Failure {
 		when := fmt.Sprintf("after op %d (%s %s)", oi, op.K, c.Pods[op.Pod].Name)
 		p := c.Pods[op.Pod]
 		switch op.K {
-		case "add":
-			if live[op.Pod] != nil {
+		case "add", "resandbox":
+			keepObject := false
+			if op.K == "resandbox" {
+				// kubelet re-creates the sandbox of a pod that stays: DEL of the old container, ADD of a new one, same pod object (with
+				// whatever galaxy wrote into its annotations)
+				l := live[op.Pod]
+				if l == nil {
+					continue
+				}
+				if code, body := d.Request("DEL", l.cid, "ns1", p.Name, "eth0", ""); code != 200 {
+					return vcore.Failf("c14:del_failed", "%s: DEL of the old sandbox answered %d %s", when, code, firstLine(body))
+				}
+				delete(live, op.Pod)
+				keepObject = true
+				r.Class("sandbox_recreated")
+			} else if live[op.Pod] != nil {
 				continue
 			}
 			nAdd++
@@ -281,9 +295,11 @@ func checkC14G(c *c14gCase, r *vcore.Rec) *vcore.Failure {
 			everCids = append(everCids, cid)
 			ip := fmt.Sprintf("10.77.%d.%d", op.Pod, 1+nAdd%250)
 			env.PinIP(cid, ip)
-			_ = kube.Tracker().Delete(podsRes, "ns1", p.Name)
-			if err := kube.Tracker().Add(c14gPodObject(p, free)); err != nil {
-				panic(err)
+			if !keepObject {
+				_ = kube.Tracker().Delete(podsRes, "ns1", p.Name)
+				if err := kube.Tracker().Add(c14gPodObject(p, free)); err != nil {
+					panic(err)
+				}
 			}
 			if op.FailCNI {
 				env.Fail(cid, "neta", "ADD", 1)
